@@ -128,9 +128,13 @@ def _len_misuse(t, root, parent=None):
         is_acc = (pk is not None and isinstance(pk, tuple) and pk and pk[0] != "opaque" and overlaps(pk, root)) or \
                  (a[0] == "param" and a[1] == 3 and root == (3, ("deref",)))
         if is_acc:
-            if parent is not None and parent[0] == "bin" and parent[1] in ("Eq", "Ne", "Gt", "Lt", "Ge", "Le") \
-                    and ("int", 0) in (parent[2], parent[3]):
-                return False
+            if parent is not None and parent[0] == "bin" and parent[1] in ("Eq", "Ne", "Gt", "Lt", "Ge", "Le"):
+                # any comparison whose normal form is len == 0 / len >= 1 (len > 0, len != 0, 1 <= len, len < 1 ...)
+                from ..poly import cmp_nf, poly as _poly, GE0 as _GE0, Poly as _Poly
+                nf = cmp_nf(parent[1], parent[2], parent[3])
+                L = _poly(t)
+                if nf in (_GE0(-L), _GE0(L - _Poly.const(1))):
+                    return False
             return True
     for x in t:
         if isinstance(x, tuple) and _len_misuse(x, root, t):
@@ -202,10 +206,13 @@ def _join(prog, rep):
     if len(lms) != 1:
         raise AnchorMissing("fill_slow_path: expected one loop")
     lm = lms[0]
-    want = ("call", "Iterator::enumerate", (("call", "[]::iter", (("call", "crate::wrap::wrap", (TEXT, OPT)),)),))
-    r.check(lm.source == want, "source", "the loop enumerates the lines of wrap(text, options)", D(lm.source),
-            "fill_slow_path iterates %s; expected wrap(text, options).iter().enumerate()" % D(lm.source))
-    i, line = lm.item_proj(0), lm.item_proj(1)
+    from ..idioms import FirstIter
+    fi = FirstIter(prog, body, lm)
+    wrapped = ("call", "crate::wrap::wrap", (TEXT, OPT))
+    r.check(fi.source in (("call", "[]::iter", (wrapped,)), wrapped, ("call", "Vec::iter", (wrapped,))), "source",
+            "the loop runs over the lines of wrap(text, options)", D(lm.source),
+            "fill_slow_path iterates %s; expected the lines of wrap(text, options)" % D(lm.source))
+    line = fi.element
     ending = ("call", "crate::line_ending::LineEnding::as_str", (("field", OPT, "line_ending"),))
     cases = set()
     for tr in loop_system(prog, body, lm, [], [res]):
@@ -214,11 +221,11 @@ def _join(prog, rep):
         nfs = [fact_nf(f) for f in tr.facts if f[0][0] == "cmp"]
         evs = [(n, a[1]) for (_b, n, a, _r) in tr.events]
         site = site_of_block(body, tr.path[-2])
-        later = GT0(poly(i)) in nfs
-        first = GE0(-poly(i)) in nfs or EQ0(poly(i)) in nfs
-        if not (later or first):
-            r.check(False, "branch", "", "", "a path of the join loop does not test i > 0", site=site)
+        first = fi.verdict(tr.facts)
+        if first is None:
+            r.check(False, "branch", "", "", "a path of the join loop does not test whether this is the first line", site=site)
             continue
+        later = not first
         cases.add(later)
         exp = ([("String::push_str", ending)] if later else []) + [("String::push_str", line)]
         r.check(evs == exp, "trace:%s" % ("later" if later else "first"), "line %s: %s" % ("i > 0" if later else "0", [(n.split("::")[-1], D(a)) for n, a in exp]),
